@@ -28,8 +28,23 @@ PROPS = {
 PROPS["C18"] = {
     "engine": "codec",
     "properties_file": "Properties/C18.v",
-    "model_files": ["Model/WireTypes.v", "Model/Codec.v", "Model/Interp.v", "Model/Cases18.v"],
-    "technique": "Coq proof by induction over arbitrary layout descriptors; model tied by differential run on reflect.StructOf layouts",
-    "level_text": "todo", "level_note": "todo", "rule": "todo",
+    "model_files": ["Model/WireTypes.v", "Model/Codec.v", "Model/Interp.v", "Model/Cases18.v", "Spec/WireSpec.v", "Spec/CodecSpec.v"],
+    "technique": "Coq proof by induction over arbitrary layout descriptors (all programs of the tag grammar); model tied by differential run on reflect.StructOf layouts",
+    "level_text": "Twelve theorems quantified over ALL well-formed layouts, all in-domain values and all byte strings: Marshal writes exactly "
+                  "the pointwise protocol image (each field's bytes at its offset, tags in the header, zero elsewhere) and never panics; "
+                  "Unmarshal never panics, fails only for bad length/header/tag/out-of-domain field and returns the protocol decoding; "
+                  "round trip; injectivity; frame; tag spellings (256x4 enumeration). The Gallina model is compared on every run with the "
+                  "real codec on struct types built with reflect.StructOf from the same descriptors (every kind x boundary/all offsets, "
+                  "packed, embedded, tag spellings, non-wf layouts, mutated and random payloads), with a mutate-input-afterwards aliasing probe.",
+    "level_note": "Trusted: Coq kernel + vm_compute (tag-spelling and decimal-format enumerations); the hand-written model of the reflection "
+                  "walk and of the 19 field kinds (time values modelled by civil fields, TZ=UTC instance) as far as the correspondence run "
+                  "exercises it; the harness' construction of struct types and printing of values. Aliasing (decoded values sharing the "
+                  "input buffer) is decided by the harness probe, not by a theorem: the functional model cannot express sharing.",
+    "rule": "layouts: every kind at boundary offsets (thorough: every offset 0..66), random packed 1..12 fields, one level of embedding, "
+            "tag spellings, unsupported/overlapping/headerless layouts; per layout 3 value sets (every third from the edge pool), decode of "
+            "the encoding, of a one-byte mutation and of a random payload; wrong lengths and SOM bytes. Non-trivial = layout has >= 1 field "
+            "and (for decode) the buffer passes the length/SOM gate; distinct = distinct Coq case terms.",
+    "env": {"TZ": "UTC"},
+    "assumptions": ["process time zone UTC for this stream (zone dependence is C13's and C05's)"],
 }
 NOT_YET = {}
